@@ -437,6 +437,17 @@ def m_np_log(it, fr, a):
     return ops.mk(ops._uf(ops.LN, ops.z3real(a)), 'real')
 
 
+def m_np_mean(it, fr, a):
+    it.trusted_used.add('numpy.mean = sum / length')
+    s = ops.to_sseq(a) if not isinstance(a, SSeq) else a
+    tot = m_sum(it, fr, s)
+    return ops.binop('/', tot, ops.mk(s.n, 'int'))
+
+
+def m_np_abs(it, fr, a):
+    return ops.absval(a) if not isinstance(a, SSeq) else (_ for _ in ()).throw(Unsupported('abs of array'))
+
+
 def m_np_array(it, fr, a, **k):
     return as_nd(a)
 
@@ -715,7 +726,7 @@ def build_models():
                  (open, m_open),
                  (np.where, m_np_where), (np.append, m_np_append), (np.arange, m_arange), (np.vstack, m_np_vstack),
                  (np.power, m_np_power), (np.mod, m_np_mod), (np.sqrt, m_np_sqrt), (np.exp, m_np_exp),
-                 (np.log, m_np_log), (np.array, m_np_array),
+                 (np.log, m_np_log), (np.array, m_np_array), (np.mean, m_np_mean),
                  (math.log, m_math_log), (math.floor, m_floor), (math.ceil, m_ceil),
                  (_copy.deepcopy, m_deepcopy), (_time.time, m_time), (itertools.product, m_product), (_random.Random, m_Random)]:
         M[f] = m
